@@ -264,7 +264,7 @@ def open_storage(path, opts, first=False, read_only=False):
 
 
 def run_history(hist, root, pack_after=None, keep_open=False, referencesf=None, existing=False,
-                fsync_fault_at=None, live_reads=True):
+                fsync_fault_at=None, live_reads=True, pack_probe=None):
     """Execute `hist` on a FileStorage at root/Data.fs under vfs recording (fresh, or `existing`: continue on
     what is there).  Returns RealRun with: init (directory image after the open), events (since then),
     committed (indices of the transactions that are in the file, in file order), outcome per transaction,
@@ -607,6 +607,16 @@ def run_history(hist, root, pack_after=None, keep_open=False, referencesf=None, 
         if pack_after is not None:
             rr.pre_pack_events = len(rr.events)
             import time as _time
+            if pack_probe is not None:
+                # call the probe before every whole-file operation of the pack (and once after it)
+                def phook(ev):
+                    if ev[0] in ('create', 'rename', 'link', 'remove'):
+                        rec.on_event = None
+                        try:
+                            pack_probe(rec, ev)
+                        finally:
+                            rec.on_event = phook
+                rec.on_event = phook
             if isinstance(pack_after, dict):
                 # pack to a time BETWEEN transaction `after` and the next one (tids must be well apart)
                 from ZODB.TimeStamp import TimeStamp
@@ -615,6 +625,9 @@ def run_history(hist, root, pack_after=None, keep_open=False, referencesf=None, 
                 fs.pack(TimeStamp(p64((a + b) // 2)).timeTime(), referencesf, gc=pack_after.get('gc', False))
             else:
                 fs.pack(_time.time(), referencesf, gc=pack_after)
+            rec.on_event = None
+            if pack_probe is not None:
+                pack_probe(rec, ('done',))
             rr.events = rec.events[n0:]
             with open(path, 'rb') as f:
                 rr.packed = f.read()
